@@ -1,14 +1,11 @@
-(* C10/C11 - proof layer 1 for no-fallthrough (IN PROGRESS; nothing here is assumed anywhere).
-   Goal: the "stops" flag that the ghost analyzer logs for a switch case equals `any_stops` evaluated on the
-   map at the END of the whole analysis, and every switch/case of the program has its log entries; together
-   with `ghost_sound` this gives `C11_case_holds repaired`.
-   Done (part A, below): when the analysis of a statement list is finished, the map holds, for each element
-   of the list, exactly the ghost end reason that the "stops" flag is computed from (`tops_ok`), hence
-   `any_stops` on that map = the logged flag (`any_stops_tops`).
-   Remaining: (B) tail stability - none of the operations that follow the list (rest of the enclosing
-   visitors, later siblings) writes a key of those elements; per visitor this is a chain of the `frame_*`
-   lemmas of SoundnessMap.v; (C) a syntactic lemma: every switch `sw` with case `b` of the program has
-   log entries `GStmt sw d _` and `GCase b (negb d) _`.
+(* C10/C11 - proof layer 1 for no-fallthrough.
+   (A) `tops_ok`: when the analysis of a statement list is finished, the map holds for each element exactly the
+       ghost end reason that the logged "stops" flag of a case is computed from;
+   (B) `case_flags_stable`: tail stability - none of the operations that follow (rest of the enclosing visitors,
+       later siblings) writes a key of those elements, so the flag equals `any_stops` on every later map;
+   (C) `switch_entries`: every switch `sw` with case `b` occurring in the program has log entries
+       `GStmt sw d _` and `GCase b (negb d) _`.
+   Together with `ghost_sound` this gives `C11_case_sound_repaired` (SoundnessRepaired.v).
    Holds for every combination of repairs. *)
 From V Require Import CF.AnalyzerG CF.SoundnessInv CF.SoundnessMap CF.Semantics.
 From Coq Require Import Lia.
@@ -563,6 +560,198 @@ Proof.
     + apply frc_case. exact Hnb.
     + apply frcs_cases. exact Hnr.
     + intros k [<-|Hk] Hk'; [apply Hp, in_or_app; right; exact Hk' | exact (Hd k Hk Hk')].
+Qed.
+
+
+(* ------------------------------------------------------------------ *)
+(* part C: every switch of the program, and each of its cases, has its log entries; the case entry records
+   "live" exactly when the switch's own entry records "not dead" *)
+Definition has_entries (lg : list gent) (sw : N) (cs : cases) : Prop :=
+  exists d fl, In (GStmt sw d fl) lg /\ forall b, case_in b cs -> exists stops, In (GCase b (negb d) stops) lg.
+
+Lemma has_entries_incl lg lg' sw cs : has_entries lg sw cs -> incl lg lg' -> has_entries lg' sw cs.
+Proof.
+  intros [d [fl [H1 H2]]] Hi. exists d, fl. split; [apply Hi, H1|].
+  intros b Hb. destruct (H2 b Hb) as [s Hs]. exists s. apply Hi, Hs.
+Qed.
+
+Lemma lg_orbG s r : g_lg (orbG s r) = g_lg r.
+Proof. unfold orbG. destruct r as [[y rs] lg]. destruct (is_brk_or_cont s); reflexivity. Qed.
+Lemma lg_wrap s V x0 : g_lg (wrap s V x0) = GStmt (pos s) (dead_now x0) (stmt_unreachable s x0) :: g_lg (V (set_unreach (pos s) (stmt_unreachable s x0) x0)).
+Proof. unfold wrap. apply g_lg_gcons. Qed.
+Lemma lg_block_end p r : g_lg (block_endG p r) = l_lg r.
+Proof. unfold block_endG. destruct r as [[y tops] lg]. reflexivity. Qed.
+Lemma lg_with_child kd start g x : g_lg (with_childG fx kd start g x) = g_lg (g (child_enter kd x)).
+Proof. unfold with_childG. destruct (g (child_enter kd x)) as [[c r] lg]. reflexivity. Qed.
+Lemma lg_fn p pb g x : g_lg (fn_likeG fx p pb g x) = l_lg (g (child_enter KFunction x)).
+Proof. unfold fn_likeG, block_endG. destruct (g (child_enter KFunction x)) as [[c tops] lg]. reflexivity. Qed.
+Lemma lg_arrow p pb g x : g_lg (let '(y, r, lg) := fn_likeG fx p pb g x in (visit_lit y, r, lg)) = l_lg (g (child_enter KFunction x)).
+Proof. rewrite <- (lg_fn p pb g x). destruct (fn_likeG fx p pb g x) as [[y r] lg]. reflexivity. Qed.
+Lemma lg_if p c p1 g1 x : g_lg (visit_ifG fx p c p1 g1 x) = g_lg (g1 (child_enter KIf (visit_cond c x))).
+Proof. unfold visit_ifG. rewrite <- (lg_with_child KIf p1 g1 (visit_cond c x)). destruct (with_childG fx KIf p1 g1 (visit_cond c x)) as [[y r] lg]. reflexivity. Qed.
+Lemma lg_if_else p c p1 g1 p2 g2 x :
+  exists y2, g_lg (visit_if_elseG fx p c p1 g1 p2 g2 x) = g_lg (g1 (child_enter KIf (visit_cond c x))) ++ g_lg (g2 y2).
+Proof.
+  unfold visit_if_elseG. rewrite <- (lg_with_child KIf p1 g1 (visit_cond c x)).
+  destruct (with_childG fx KIf p1 g1 (visit_cond c x)) as [[y1 r1] lg1]. exists (child_enter KIf y1).
+  rewrite <- (lg_with_child KIf p2 g2 y1). destruct (with_childG fx KIf p2 g2 y1) as [[y2 r2] lg2]. reflexivity.
+Qed.
+Lemma lg_while c lo g x : g_lg (visit_whileG fx c lo g x) = g_lg (g (child_enter KLoop x)).
+Proof. unfold visit_whileG. destruct (g (child_enter KLoop x)) as [[a r] lg]. reflexivity. Qed.
+Lemma lg_do_while p c lo g x : g_lg (visit_do_whileG fx p c lo g x) = g_lg (g (child_enter KLoop x)).
+Proof. unfold visit_do_whileG. destruct (g (child_enter KLoop x)) as [[a r] lg]. reflexivity. Qed.
+Lemma lg_for p c lo g x : exists y, g_lg (visit_forG fx p c lo g x) = g_lg (g y).
+Proof.
+  unfold visit_forG. exists (child_enter KLoop (match c with Some c0 => visit_cond c0 x | None => x end)).
+  destruct (g (child_enter KLoop (match c with Some c0 => visit_cond c0 x | None => x end))) as [[a r] lg]. reflexivity.
+Qed.
+Lemma lg_for_in lo g x : g_lg (visit_for_inG fx lo g x) = g_lg (g (child_enter KLoop x)).
+Proof. unfold visit_for_inG. destruct (g (child_enter KLoop x)) as [[a r] lg]. reflexivity. Qed.
+Lemma lg_label l p g x : g_lg (let '(y, _, lg) := with_childG fx (KLabel l) p g x in (y, @None End, lg)) = g_lg (g (child_enter (KLabel l) x)).
+Proof. rewrite <- (lg_with_child (KLabel l) p g x). destruct (with_childG fx (KLabel l) p g x) as [[y r] lg]. reflexivity. Qed.
+Lemma lg_switch p cs g x : g_lg (visit_switchG p cs g x) = c_lg (g x).
+Proof. unfold visit_switchG. destruct (g x) as [[x1 rs] lg]. reflexivity. Qed.
+Lemma lg_handler cp hbp prev g x : exists y, snd (try_handlerG fx cp hbp prev g x) = l_lg (g y).
+Proof.
+  unfold try_handlerG. set (xa := set_mt (if s_mt (sc x) then set_end x prev else x) false). exists (child_enter KCatch xa).
+  rewrite <- (lg_block_end hbp (g (child_enter KCatch xa))). rewrite <- (lg_with_child KCatch cp (fun a => block_endG hbp (g a)) xa).
+  destruct (with_childG fx KCatch cp (fun a => block_endG hbp (g a)) xa) as [[xb r] lg]. reflexivity.
+Qed.
+Lemma lg_finalizer fp prev g x : exists y, snd (try_finalizerG fx fp prev g x) = l_lg (g y).
+Proof.
+  unfold try_finalizerG. exists (child_enter KFinally (set_end x prev)).
+  rewrite <- (lg_block_end fp (g (child_enter KFinally (set_end x prev)))). rewrite <- (lg_with_child KFinally fp (fun a => block_endG fp (g a)) (set_end x prev)).
+  destruct (with_childG fx KFinally fp (fun a => block_endG fp (g a)) (set_end x prev)) as [[xb r] lg]. reflexivity.
+Qed.
+Lemma lg_try p bp gb h gh f gf x :
+  exists y2 y3, g_lg (visit_tryG fx p bp gb h gh f gf x) =
+    l_lg (gb (set_mt x false)) ++ (match h with Some _ => l_lg (gh y2) | None => [] end) ++ (match f with Some _ => l_lg (gf y3) | None => [] end).
+Proof.
+  unfold visit_tryG. rewrite <- (lg_block_end bp (gb (set_mt x false))).
+  destruct (block_endG bp (gb (set_mt x false))) as [[x1 r1] lg1]. cbn [g_lg snd].
+  assert (H2 : exists y2, snd (match h with Some (cp, hbp) => try_handlerG fx cp hbp (s_end (sc x)) gh x1 | None => (x1, []) end) = match h with Some _ => l_lg (gh y2) | None => [] end).
+  { destruct h as [[cp hbp]|]; [apply lg_handler | exists x; reflexivity]. }
+  destruct H2 as [y2 E2]. destruct (match h with Some (cp, hbp) => try_handlerG fx cp hbp (s_end (sc x)) gh x1 | None => (x1, []) end) as [x2 lg2].
+  assert (H3 : exists y3, snd (match f with Some fp => try_finalizerG fx fp (s_end (sc x)) gf x2 | None => (x2, []) end) = match f with Some _ => l_lg (gf y3) | None => [] end).
+  { destruct f as [fp|]; [apply lg_finalizer | exists x; reflexivity]. }
+  destruct H3 as [y3 E3]. destruct (match f with Some fp => try_finalizerG fx fp (s_end (sc x)) gf x2 | None => (x2, []) end) as [x3 lg3].
+  exists y2, y3. cbn [snd] in *. rewrite E2, E3. reflexivity.
+Qed.
+Lemma lg_cons t r y : exists y2, l_lg (anG_list fx (SCons t r) y) = g_lg (anG fx t y) ++ l_lg (anG_list fx r y2).
+Proof.
+  rewrite anG_list_cons. unfold consG. rewrite <- (lg_orbG t (anG fx t y)). destruct (orbG t (anG fx t y)) as [[y1 r1] lg1].
+  exists y1. destruct (anG_list fx r y1) as [[y2 tops] lg2]. reflexivity.
+Qed.
+
+Lemma end_visit_case cp b g y : s_end (sc (g_st (visit_caseG fx cp b g y))) = s_end (sc y).
+Proof. unfold visit_caseG. destruct (g (child_enter KCase y)) as [[c tops] lg]. reflexivity. Qed.
+
+Lemma cases_entries cs b : case_in b cs -> forall y, exists stops, In (GCase b (live_now y) stops) (c_lg (anG_cases fx cs y)).
+Proof.
+  induction 1 as [cp d ft b r | b' cp d ft b r Hin IH]; intros y; rewrite anG_cases_cons; unfold consC.
+  - unfold visit_caseG. destruct (anG_list fx b (child_enter KCase y)) as [[c tops] lg].
+    destruct (anG_cases fx r _) as [[y2 rs] lg2]. exists (tops_stop tops). cbn [c_lg snd]. left. reflexivity.
+  - pose proof (end_visit_case cp b (anG_list fx b) y) as He.
+    destruct (visit_caseG fx cp b (anG_list fx b) y) as [[y1 r1] lg1]. cbn [g_st fst] in He.
+    destruct (IH y1) as [stops Hs]. destruct (anG_cases fx r y1) as [[y2 rs] lg2]. cbn [c_lg snd] in *.
+    exists stops. apply in_or_app. right. unfold live_now in *. rewrite <- He. exact Hs.
+Qed.
+
+Lemma lg_consC cp d ft b r y :
+  exists y2, c_lg (anG_cases fx (CCons cp d ft b r) y) =
+    g_lg (visit_caseG fx cp b (anG_list fx b) y) ++ c_lg (anG_cases fx r y2).
+Proof.
+  rewrite anG_cases_cons. unfold consC. destruct (visit_caseG fx cp b (anG_list fx b) y) as [[y1 r1] lg1].
+  exists y1. destruct (anG_cases fx r y1) as [[y2 rs] lg2]. reflexivity.
+Qed.
+Lemma lg_case cp b g y : exists stops, g_lg (visit_caseG fx cp b g y) = GCase b (live_now y) stops :: l_lg (g (child_enter KCase y)).
+Proof. unfold visit_caseG. destruct (g (child_enter KCase y)) as [[c tops] lg]. exists (tops_stop tops). reflexivity. Qed.
+
+Lemma lg_loop s pre b post : loop_shape s = Some (pre, b, post) ->
+  forall x, exists y, g_lg (anG fx s x) = GStmt (pos s) (dead_now x) (stmt_unreachable s x) :: g_lg (anG fx b y).
+Proof.
+  intros Hs x.
+  destruct s as [ | | | | | | | | | | | |p0 c0 b0|p0 b0 c0|p0 c0 b0|p0 b0|p0 b0| | | ]; cbn [loop_shape] in Hs; try discriminate.
+  - injection Hs as _ <- _. change (anG fx (SWhile p0 c0 b0) x) with (wrap (SWhile p0 c0 b0) (visit_whileG fx c0 (pos b0) (anG fx b0)) x).
+    rewrite lg_wrap, lg_while. eexists. reflexivity.
+  - injection Hs as _ <- _. change (anG fx (SDoWhile p0 b0 c0) x) with (wrap (SDoWhile p0 b0 c0) (visit_do_whileG fx p0 c0 (pos b0) (anG fx b0)) x).
+    rewrite lg_wrap, lg_do_while. eexists. reflexivity.
+  - assert (Hb : b0 = b) by (destruct c0; injection Hs as _ Hb _; exact Hb). subst b.
+    change (anG fx (SFor p0 c0 b0) x) with (wrap (SFor p0 c0 b0) (visit_forG fx p0 c0 (pos b0) (anG fx b0)) x).
+    rewrite lg_wrap. destruct (lg_for p0 c0 (pos b0) (anG fx b0) (set_unreach (pos (SFor p0 c0 b0)) (stmt_unreachable (SFor p0 c0 b0) x) x)) as [y Eq].
+    rewrite Eq. eexists. reflexivity.
+  - injection Hs as _ <- _. change (anG fx (SForIn p0 b0) x) with (wrap (SForIn p0 b0) (visit_for_inG fx (pos b0) (anG fx b0)) x).
+    rewrite lg_wrap, lg_for_in. eexists. reflexivity.
+  - injection Hs as _ <- _. change (anG fx (SForOf p0 b0) x) with (wrap (SForOf p0 b0) (visit_for_inG fx (pos b0) (anG fx b0)) x).
+    rewrite lg_wrap, lg_for_in. eexists. reflexivity.
+Qed.
+
+Scheme sub_stmt_mind := Minimality for sub_stmt Sort Prop
+  with sub_stmts_mind := Minimality for sub_stmts Sort Prop
+  with sub_cases_mind := Minimality for sub_cases Sort Prop.
+Combined Scheme sub_mutind from sub_stmt_mind, sub_stmts_mind, sub_cases_mind.
+
+Lemma entries_wrap s V sw cs x0 :
+  has_entries (g_lg (V (set_unreach (pos s) (stmt_unreachable s x0) x0))) sw cs -> has_entries (g_lg (wrap s V x0)) sw cs.
+Proof. intros H. rewrite lg_wrap. eapply has_entries_incl; [exact H | apply incl_tl, incl_refl]. Qed.
+
+Theorem switch_entries :
+  (forall t s, sub_stmt t s -> forall sw cs, t = SSwitch sw cs -> forall x, has_entries (g_lg (anG fx s x)) sw cs) /\
+  (forall t l, sub_stmts t l -> forall sw cs, t = SSwitch sw cs -> forall x, has_entries (l_lg (anG_list fx l x)) sw cs) /\
+  (forall t cs', sub_cases t cs' -> forall sw cs, t = SSwitch sw cs -> forall x, has_entries (c_lg (anG_cases fx cs' x)) sw cs).
+Proof.
+  apply sub_mutind.
+  - (* the switch itself *)
+    intros s sw cs -> x. change (anG fx (SSwitch sw cs) x) with (wrap (SSwitch sw cs) (visit_switchG sw cs (anG_cases fx cs)) x).
+    rewrite lg_wrap, lg_switch. exists (dead_now x), (stmt_unreachable (SSwitch sw cs) x). split; [left; reflexivity|].
+    intros b Hb. destruct (cases_entries cs b Hb (set_unreach (pos (SSwitch sw cs)) (stmt_unreachable (SSwitch sw cs) x) x)) as [stops Hs].
+    exists stops. right. unfold live_now in Hs. cbn [set_unreach set_info sc] in Hs. unfold dead_now. rewrite live_not_dead in Hs. exact Hs.
+  - intros t p n pb b _ IH sw cs E x. change (anG fx (SFnDecl p n pb b) x) with (wrap (SFnDecl p n pb b) (fn_likeG fx p pb (anG_list fx b)) x).
+    apply entries_wrap. rewrite lg_fn. apply (IH sw cs E).
+  - intros t p pb b _ IH sw cs E x.
+    change (anG fx (SArrowStmt p pb b) x) with (wrap (SArrowStmt p pb b) (fun x => let '(y, r, lg) := fn_likeG fx p pb (anG_list fx b) x in (visit_lit y, r, lg)) x).
+    apply entries_wrap. rewrite lg_arrow. apply (IH sw cs E).
+  - intros t p b _ IH sw cs E x. change (anG fx (SBlock p b) x) with (wrap (SBlock p b) (fun a => block_endG p (anG_list fx b a)) x).
+    apply entries_wrap. rewrite lg_block_end. apply (IH sw cs E).
+  - intros t p c a _ IH sw cs E x. change (anG fx (SIf p c a) x) with (wrap (SIf p c a) (visit_ifG fx p c (pos a) (fun y => orbG a (anG fx a y))) x).
+    apply entries_wrap. rewrite lg_if, lg_orbG. apply (IH sw cs E).
+  - intros t p c a b _ IH sw cs E x.
+    change (anG fx (SIfElse p c a b) x) with (wrap (SIfElse p c a b) (visit_if_elseG fx p c (pos a) (fun y => orbG a (anG fx a y)) (pos b) (fun y => orbG b (anG fx b y))) x).
+    apply entries_wrap. destruct (lg_if_else p c (pos a) (fun y => orbG a (anG fx a y)) (pos b) (fun y => orbG b (anG fx b y)) (set_unreach (pos (SIfElse p c a b)) (stmt_unreachable (SIfElse p c a b) x) x)) as [y2 Eq].
+    rewrite Eq, lg_orbG. eapply has_entries_incl; [apply (IH sw cs E) | apply incl_appl, incl_refl].
+  - intros t p c a b _ IH sw cs E x.
+    change (anG fx (SIfElse p c a b) x) with (wrap (SIfElse p c a b) (visit_if_elseG fx p c (pos a) (fun y => orbG a (anG fx a y)) (pos b) (fun y => orbG b (anG fx b y))) x).
+    apply entries_wrap. destruct (lg_if_else p c (pos a) (fun y => orbG a (anG fx a y)) (pos b) (fun y => orbG b (anG fx b y)) (set_unreach (pos (SIfElse p c a b)) (stmt_unreachable (SIfElse p c a b) x) x)) as [y2 Eq].
+    rewrite Eq, !lg_orbG. eapply has_entries_incl; [apply (IH sw cs E) | apply incl_appr, incl_refl].
+  - (* loops *)
+    intros t s pre b post Hs _ IH sw cs E x. destruct (lg_loop s pre b post Hs x) as [y Eq]. rewrite Eq.
+    eapply has_entries_incl; [apply (IH sw cs E) | apply incl_tl, incl_refl].
+  - intros t p cs0 _ IH sw cs E x. change (anG fx (SSwitch p cs0) x) with (wrap (SSwitch p cs0) (visit_switchG p cs0 (anG_cases fx cs0)) x).
+    apply entries_wrap. rewrite lg_switch. apply (IH sw cs E).
+  - intros t p l b _ IH sw cs E x.
+    change (anG fx (SLabel p l b) x) with (wrap (SLabel p l b) (fun x => let '(y, _, lg) := with_childG fx (KLabel l) p (fun a => orbG b (anG fx b a)) x in (y, @None End, lg)) x).
+    apply entries_wrap. rewrite lg_label, lg_orbG. apply (IH sw cs E).
+  - intros t p bp blk h hb f fb _ IH sw cs E x.
+    change (anG fx (STry p bp blk h hb f fb) x) with (wrap (STry p bp blk h hb f fb) (visit_tryG fx p bp (anG_list fx blk) h (anG_list fx hb) f (anG_list fx fb)) x).
+    apply entries_wrap. destruct (lg_try p bp (anG_list fx blk) h (anG_list fx hb) f (anG_list fx fb) (set_unreach (pos (STry p bp blk h hb f fb)) (stmt_unreachable (STry p bp blk h hb f fb) x) x)) as [y2 [y3 Eq]].
+    rewrite Eq. eapply has_entries_incl; [apply (IH sw cs E) | apply incl_appl, incl_refl].
+  - intros t p bp blk hp hb f fb _ IH sw cs E x.
+    change (anG fx (STry p bp blk (Some hp) hb f fb) x) with (wrap (STry p bp blk (Some hp) hb f fb) (visit_tryG fx p bp (anG_list fx blk) (Some hp) (anG_list fx hb) f (anG_list fx fb)) x).
+    apply entries_wrap. destruct (lg_try p bp (anG_list fx blk) (Some hp) (anG_list fx hb) f (anG_list fx fb) (set_unreach (pos (STry p bp blk (Some hp) hb f fb)) (stmt_unreachable (STry p bp blk (Some hp) hb f fb) x) x)) as [y2 [y3 Eq]].
+    rewrite Eq. eapply has_entries_incl; [apply (IH sw cs E) | apply incl_appr, incl_appl, incl_refl].
+  - intros t p bp blk h hb fp fb _ IH sw cs E x.
+    change (anG fx (STry p bp blk h hb (Some fp) fb) x) with (wrap (STry p bp blk h hb (Some fp) fb) (visit_tryG fx p bp (anG_list fx blk) h (anG_list fx hb) (Some fp) (anG_list fx fb)) x).
+    apply entries_wrap. destruct (lg_try p bp (anG_list fx blk) h (anG_list fx hb) (Some fp) (anG_list fx fb) (set_unreach (pos (STry p bp blk h hb (Some fp) fb)) (stmt_unreachable (STry p bp blk h hb (Some fp) fb) x) x)) as [y2 [y3 Eq]].
+    rewrite Eq. eapply has_entries_incl; [apply (IH sw cs E) | apply incl_appr, incl_appr, incl_refl].
+  - intros t s r _ IH sw cs E x. destruct (lg_cons s r x) as [y2 Eq]. rewrite Eq.
+    eapply has_entries_incl; [apply (IH sw cs E) | apply incl_appl, incl_refl].
+  - intros t s r _ IH sw cs E x. destruct (lg_cons s r x) as [y2 Eq]. rewrite Eq.
+    eapply has_entries_incl; [apply (IH sw cs E) | apply incl_appr, incl_refl].
+  - intros t cp d ft b r _ IH sw cs E x. destruct (lg_consC cp d ft b r x) as [y2 Eq]. rewrite Eq.
+    destruct (lg_case cp b (anG_list fx b) x) as [stops Ec]. rewrite Ec.
+    eapply has_entries_incl; [apply (IH sw cs E) | apply incl_appl, incl_tl, incl_refl].
+  - intros t cp d ft b r _ IH sw cs E x. destruct (lg_consC cp d ft b r x) as [y2 Eq]. rewrite Eq.
+    eapply has_entries_incl; [apply (IH sw cs E) | apply incl_appr, incl_refl].
 Qed.
 
 End Cases.
